@@ -1,7 +1,7 @@
 (** The constants and lists that the hand-written handler model (Hdl.v) writes literally equal the ones regenerated
     from the source on every run (Gen/IkeFacts.v): a change of a notification number, of an ignore list, of the
     exception -> notification table, of the vendor id ... in /repo breaks this file. *)
-From Coq Require Import ZArith List.
+From Coq Require Import ZArith List Lia Bool.
 From VLib Require Import Bytes.
 From IkeSa Require Import Gen.IkeFacts Shell Transitions Hdl.
 Import ListNotations.
@@ -65,3 +65,40 @@ Lemma admissions_agree :
   ADM_generate_ike_sa_init_request = admitted_in FN_generate_ike_sa_init_request /\
   ADM_generate_ike_auth_request = admitted_in FN_generate_ike_auth_request.
 Proof. repeat split; reflexivity. Qed.
+
+(** The AUTH octets and the PSK AUTH value of the handler model are the ones of the AUTH model of Auth.v, which
+    assembles the signed octets in the order regenerated from the source ([octets_order]) with the regenerated key pad *)
+From IkeSa Require Import Auth.
+Lemma signed_octets_agree : forall (E : env) cp msg nonce t d skp,
+  Hdl.signed_octets E cp msg nonce t d skp
+  = Auth.signed_octets (e_prf E cp) msg nonce (Auth.id_body (Z.to_N t) d) skp.
+Proof.
+  intros. unfold Hdl.signed_octets, Auth.signed_octets, Auth.id_body, Hdl.id_bytes. cbn [octets_order map concat].
+  rewrite app_nil_r. reflexivity.
+Qed.
+Lemma psk_auth_agree : forall (E : env) cp psk octets,
+  Hdl.psk_auth E cp psk octets = Auth.psk_auth (e_prf E cp) psk octets.
+Proof. reflexivity. Qed.
+
+(** the cookie test of the handler model is the regenerated rejection test [cookie_reject] *)
+Lemma cookie_test_agree : forall (E : env) sec (m : pmsg body) n addr,
+  let expected := e_cookie E sec (be_encode 8 (Z.to_N (h_spi_i (p_hdr m))) ++ n ++ addr) in
+  let cookies := get_notifies m N_COOKIE false in
+  let first_equal := match cookies with P_NOTIFY _ _ _ d :: _ => bytes_eqb d expected | _ => false end in
+  cookie_reject (Z.of_nat (length cookies)) first_equal =
+  match cookies with
+  | P_NOTIFY _ _ _ d :: _ => negb (bytes_eqb d expected)
+  | _ => true
+  end.
+Proof.
+  intros. subst cookies first_equal. unfold cookie_reject.
+  destruct (get_notifies m N_COOKIE false) as [|p r] eqn:Eg; [reflexivity|].
+  assert (Hp : exists a b c d, p = P_NOTIFY a b c d).
+  { assert (Hin : In p (get_notifies m N_COOKIE false)) by (rewrite Eg; left; reflexivity).
+    unfold get_notifies in Hin. apply filter_In in Hin as [Hin _]. unfold get_payloads in Hin.
+    apply filter_In in Hin as [_ Hk]. destruct p; cbn in Hk; try discriminate. eauto. }
+  destruct Hp as (a & b & c & d & ->).
+  assert (Hz : (Z.of_nat (length (P_NOTIFY a b c d :: r)) =? 0) = false).
+  { apply Z.eqb_neq. cbn [length]. rewrite Nat2Z.inj_succ. pose proof (Nat2Z.is_nonneg (length r)). lia. }
+  rewrite Hz. reflexivity.
+Qed.
